@@ -553,7 +553,10 @@ static void run_r3(int n, int spacing, int fn, int which, int miss,
     vnp = vnacal_new_alloc(vcp, VNACAL_T8, 1, 1, 4);
     vnacal_new_set_frequency_vector(vnp, cal_f);
     errno = 0;
-    int rc = vnacal_new_set_m_error(vnp, n == 1 ? NULL : gf, n, nfv, trv);
+    /* one value: "frequency_vector is not used and can be specified as
+       NULL" - given or not */
+    int rc = vnacal_new_set_m_error(vnp, n == 1 && !(spacing & 1) ? NULL : gf,
+	    n, nfv, trv);
     int e = errno;
     ++r->transitions;
     if (miss == 3) {
